@@ -11,7 +11,7 @@ use rten_vecmath as vecmath;
 
 use crate::buffer_pool::BufferPool;
 use crate::infer_shapes::{
-    InferShapes, InferShapesContext, InferShapesError, ReductionOp, SymTensor, SymbolGen,
+    InferShapes, InferShapesContext, InferShapesError, ReductionOp, SymTensor, SymbolGen, UnaryOp,
     impl_infer_shapes,
 };
 use crate::operator::{
@@ -31,6 +31,17 @@ macro_rules! impl_infer_shapes_for_reduce_op {
                 inputs: InferShapesContext,
                 sym_gen: &mut SymbolGen,
             ) -> Result<Vec<SymTensor>, InferShapesError> {
+                // With `noop_with_empty_axes`, missing or empty axes leave the
+                // input unchanged instead of reducing all dims.
+                if self.noop_with_empty_axes {
+                    let axes_empty = match inputs.get(1) {
+                        Some(axes) => axes.to_constant().is_some_and(|c| c.values().is_empty()),
+                        None => self.axes.as_ref().is_none_or(|axes| axes.is_empty()),
+                    };
+                    if axes_empty {
+                        return UnaryOp.infer_shapes(inputs, sym_gen);
+                    }
+                }
                 ReductionOp {
                     axes: self.axes.as_deref(),
                     keep_dims: self.keep_dims,
